@@ -587,3 +587,40 @@ func witnessCompaction(c *core.Ctx, db string) error {
 	c.NonTrivial()
 	return r.err
 }
+
+// witnessBigBucket: more new names in ONE dictionary bucket within one flush interval than one trie block
+// holds (the flushed bucket is split into blocks of at most 32767 keys: 40001 names = 2 blocks, 70001 names
+// = 3 blocks, neither count divisible by the block count). Every name is asked for again after the flush (in
+// the running process: memory maps are empty, the answer comes from the file) and after a reopen.
+func witnessBigBucket(c *core.Ctx, db string) error {
+	r, err := newRunner(c, db, 1, 0)
+	if err != nil {
+		return err
+	}
+	defer r.close()
+	r.o.tag = "bigbucket-"
+	id, ok := r.metric(0, 0)
+	if !ok {
+		return r.err
+	}
+	tk0, ok0 := r.tagKey(int(id), 0)
+	tk1, ok1 := r.tagKey(int(id), 1)
+	if !ok0 || !ok1 {
+		return r.err
+	}
+	round := func(tk, lo, n int) { // the bucket of tk holds exactly n names when it is flushed
+		r.tvRange(tk, lo, n)
+		r.mprepare()
+		r.mflush()
+		r.tvRange(tk, lo, n)
+	}
+	round(int(tk0), 1000, 40001)
+	round(int(tk1), 1000, 70001)
+	r.reopen()
+	r.tvRange(int(tk0), 1000, 40001)
+	r.tvRange(int(tk1), 1000, 70001)
+	r.tagValue(int(tk0), 2) // a new name after all that: a new id
+	c.Branch("witness-big-bucket")
+	c.NonTrivial()
+	return r.err
+}
